@@ -1310,16 +1310,15 @@ def _touch_one(v, kind: str):
         vs = v if isinstance(v, (list, tuple)) else [v]
         n = 0
         for x in vs:
-            qs = None
             if isinstance(x, cirq.Qid):
-                qs = [x]
+                _sut("touch:sorted", lambda q: sorted([q]), x)
             elif isinstance(x, cirq.AbstractCircuit):
-                qs = x.all_qubits()
+                _sut("touch:sorted", lambda c: sorted(c.all_qubits()), x)
             elif isinstance(x, (cirq.Operation, cirq.Moment, cirq.PauliString)):
-                qs = x.qubits
-            if qs is not None:
-                _sut("touch:sorted", sorted, qs)
-                n += 1
+                _sut("touch:sorted", lambda o: sorted(o.qubits), x)     # (.qubits of a CircuitOperation sorts too)
+            else:
+                continue
+            n += 1
         return "ok" if n else "na"
     if kind == "protocols":
         vs = v if isinstance(v, (list, tuple)) else [v]
